@@ -89,14 +89,14 @@ def make_base(cfg, tag):
         cred = {'t': 'key', 'cert': kids}
         blob = bytes(e)
     elif r[0] == 'pass-pgpy':
-        e = msg.encrypt('the passphrase', cipher=SymmetricKeyAlgorithm(cipher), hash=HashAlgorithm(r[1]), sessionkey=session)
-        cred = {'t': 'pass', 'pw': 'the passphrase'}
+        e = msg.encrypt(cfg.get('pw', 'the passphrase'), cipher=SymmetricKeyAlgorithm(cipher), hash=HashAlgorithm(r[1]), sessionkey=session)
+        cred = {'t': 'pass', 'pw': cfg.get('pw', 'the passphrase')}
         blob = bytes(e)
     else:
         spec = rs2k.Spec('iterated', r[1], b'saltsalt', 3)
         inner = bytes(msg)
-        blob = wire.build_packet(3, enc.skesk_build(cipher, spec, 'the passphrase', session)) + wire.build_packet(18, enc.seipd_build(cipher, session, inner))
-        cred = {'t': 'pass', 'pw': 'the passphrase'}
+        blob = wire.build_packet(3, enc.skesk_build(cipher, spec, cfg.get('pw', 'the passphrase'), session)) + wire.build_packet(18, enc.seipd_build(cipher, session, inner))
+        cred = {'t': 'pass', 'pw': cfg.get('pw', 'the passphrase')}
     return {'blob': blob, 'cred': cred, 'expect': expect, 'session': session, 'cipher': cipher, 'inner': bytes(msg), 'cfg': {k: (v if not isinstance(v, bytes) else v.hex()) for k, v in cfg.items()}}
 
 
@@ -231,6 +231,9 @@ def wrong_credentials(rec, base, name):
         pw = cred['pw']
         wrongs = {pw + '\n', pw + '\r\n', pw + ' ', ' ' + pw, pw.upper(), pw[:-1], pw[1:], pw + 'x', '', pw.replace('a', 'b', 1), pw + '\x00', pw.title(),
                   pw.encode().decode('latin-1') + 'é', pw[::-1]}
+        # the same text in the other Unicode normal forms is another octet string, hence another passphrase
+        import unicodedata
+        wrongs |= {unicodedata.normalize(f, pw) for f in ('NFC', 'NFD', 'NFKC', 'NFKD')}
         wrongs.discard(pw)
         for w in sorted(wrongs):
             judge(rec, base, name, 'wrong-passphrase', repr(w)[:30], base['blob'], {'t': 'pass', 'pw': w}, must_raise=True)
@@ -253,6 +256,37 @@ def wrong_credentials(rec, base, name):
             judge(rec, base, name, 'readdressed-pkesk', k, repack(pkts, rep), {'t': 'key', 'cert': [k]}, must_raise=True)
 
 
+def same_object_history(rec, base, name):
+    """one message object is first decrypted with the right credential, then offered wrong ones: what happened before must not matter"""
+    import pgpy
+    cred = base['cred']
+    try:
+        m = pgpy.PGPMessage.from_blob(bytes(base['blob']))
+        if cred['t'] == 'pass':
+            m.decrypt(cred['pw'])
+            wrongs = [cred['pw'] + 'x', '', cred['pw'][:-1], 'something else entirely']
+            tries = [(repr(w), (lambda w=w: m.decrypt(w))) for w in wrongs]
+        else:
+            key = keypool.pgpy_key(enckit.recipient_cert(cred['cert'], secret=True))
+            key.decrypt(m)
+            others = [k for k in enckit.FAST_ENC_KEYS if k not in cred['cert'] and '@' not in k][:3]
+            tries = [(k, (lambda k=k: keypool.pgpy_key(enckit.recipient_cert([k], secret=True)).decrypt(m))) for k in others]
+    except Exception as e:   # noqa
+        rec.note('same-object-history-void/%s' % harness.exc_key(e))
+        return
+    for label, fn in tries:
+        try:
+            dec = fn()
+            out = 'returned'
+        except Exception:   # noqa
+            out = 'raised'
+        rec.case((name, 'after-success', label), True, ('family/wrong-credential-after-a-successful-decryption', 'outcome/' + out, 'base/' + name),
+                 {'base': name, 'family': 'wrong credential on a message object already decrypted once', 'credential': label, 'outcome': out})
+        if out == 'returned':
+            rec.finding('wrong-credential', 'accepted-after-a-successful-decryption/' + cred['t'], {'history': True, 'base_cfg': base['cfg'], 'wrong': label, 'family': 'after-success'},
+                        'base %s: after one decryption with the right credential the same object decrypts with the wrong credential %s' % (name, label))
+
+
 BASES_QUICK = [
     ('aes128-cv25519', {'cipher': 7, 'recip': ('key', 'cv25519-0'), 'body': 'attack at dawn, bring the usual. '}, True),
     ('camellia256-p256', {'cipher': 13, 'recip': ('key', 'ecdh-p256-0'), 'body': 'x'}, True),
@@ -260,6 +294,8 @@ BASES_QUICK = [
     ('cast5-pass-ref', {'cipher': 3, 'recip': ('pass-ref', 2), 'body': 'passphrase recipient with a low-count foreign SKESK'}, True),
     ('aes256-pass-pgpy', {'cipher': 9, 'recip': ('pass-pgpy', 8), 'body': 'PGPy-made passphrase message'}, False),
     ('aes192-two-keys', {'cipher': 8, 'recip': ('key', 'cv25519-1'), 'extra_keys': ['ecdh-p384-0'], 'body': 'two key recipients', 'comp': 1}, False),
+    ('aes128-pass-nfc', {'cipher': 7, 'recip': ('pass-ref', 8), 'pw': 'Am\u00e9lie \u212b 2024', 'body': 'non-ASCII passphrase in composed form'}, False),
+    ('aes128-pass-nfd', {'cipher': 7, 'recip': ('pass-pgpy', 8), 'pw': 'Ame\u0301lie 2024', 'body': 'non-ASCII passphrase in decomposed form'}, False),
     ('blowfish-k256-zlib', {'cipher': 4, 'recip': ('key', 'ecdh-k256-0'), 'body': 'compressed body ' * 4, 'comp': 2}, False),
 ]
 
@@ -277,6 +313,7 @@ def base_task(arg):
         return rec
     families(rec, base, name, other, exhaustive, seed)
     wrong_credentials(rec, base, name)
+    same_object_history(rec, base, name)
     return rec
 
 
@@ -331,6 +368,14 @@ def dispatch(task):
 
 
 def replay(case):
+    if case.get('history'):
+        rec = harness.Rec()
+        cfg = dict(case['base_cfg'])
+        cfg['recip'] = tuple(cfg['recip'])
+        if isinstance(cfg.get('session'), str):
+            cfg['session'] = bytes.fromhex(cfg['session'])
+        same_object_history(rec, make_base(cfg, ' [A]'), 'replay')
+        return [(f['clause'], f['cause'], f['detail']) for f in rec.findings]
     out, det = attempt(bytes.fromhex(case['blob']), case['cred'], case['expect'])
     if out == 'different' or (case.get('must_raise') and out == 'same'):
         return [('integrity' if not case.get('must_raise') else 'wrong-credential', case['family'], repr(det))]
